@@ -1,9 +1,13 @@
 """C14 — one spectrum through every access path."""
 from contracts import py_access as PA
 
+from contracts import py_gv_state as GV
+from contracts import py_layout as PL
 
 def build(run):
     PA.itermesh_next(run)
     PA.init_mesh_args(run)
     PA.qpoints_ownership(run)
     PA.band_connection_pairing(run)
+    run.py_contract(GV.VF, "GroupVelocity.run", lambda: GV.run_history_independence(run), GV.replay_gv_history)
+    run.py_contract(PL.DF, "run_dynamical_matrix_solver_c[q-point layout]", lambda: PL.solver_qpoint_layout(run), PL.replay_layout)
